@@ -618,6 +618,7 @@ func first(a, _ []byte) []byte { return a }
 //@ func ({Unsigned,Signed,Float}BinaryKey[K]).Transform
 //@   ensures[fresh] fresh(result0) && result1.obj == result0.obj && result1.off == result0.off && result1.len == result0.len && result1.cap == result0.cap
 //@   ensures[len] 1 <= len(result0) && len(result0) <= 8 && cap(result0) == len(result0)
+//@   ensures[owned] atype(result0.obj) == 1000
 //@   ensures[frame] frame()
 //@   ensures[allocs_bytes_only] forallref(o, implies(allocated(o) && !old(allocated(o)), atype(o) == 1000))
 //@   assigns B
@@ -663,7 +664,7 @@ func first(a, _ []byte) []byte { return a }
 //@   opt extent on
 //@   let rootTag0 = t.root.tag
 //@   requires WF1in_alpha(t) && sizeSane(t)
-//@   ensures[removed_key_matches] implies(result, reveal(as(alphaLeafNode, leaf).key.obj) && leafKeyIs_alpha(leaf, keyS))
+//@   ensures[removed_key_matches] implies(result, reveal(as(alphaLeafNode, leaf).key.obj) && reveal(keyS.obj) && leafKeyIs_alpha(leaf, keyS))
 //@   assume_at_call (*nodeRef).deleteChild : implies(isMerge(*ptr) && survT(*ptr, b) != 4, survP(*ptr, b) != ptr.obj && as(node, survP(*ptr, b)).prefixLen + as(node4, (*ptr).pointer).prefixLen + 1 < 4294967296)
 //@   ensures[wf] WF1_alpha(t)
 //@   ensures[size] t.size == old(t.size) - ite(result, 1, 0)
@@ -686,7 +687,7 @@ func first(a, _ []byte) []byte { return a }
 //@   opt extent on
 //@   let rootTag0 = t.root.tag
 //@   requires WF1in_$KIND(t) && sizeSane(t)
-//@   ensures[removed_key_matches] implies(result, reveal(as($KINDLeafNode, leaf).key.obj) && leafKeyIs_$KIND(leaf, keyS))
+//@   ensures[removed_key_matches] implies(result, reveal(as($KINDLeafNode, leaf).key.obj) && reveal(keyS.obj) && leafKeyIs_$KIND(leaf, keyS))
 //@   assume_at_call (*nodeRef).deleteChild : implies(isMerge(*ptr) && survT(*ptr, b) != 4, survP(*ptr, b) != ptr.obj && as(node, survP(*ptr, b)).prefixLen + as(node4, (*ptr).pointer).prefixLen + 1 < 4294967296)
 //@   ensures[wf] WF1_$KIND(t)
 //@   ensures[size] t.size == old(t.size) - ite(result, 1, 0)
@@ -857,7 +858,7 @@ func first(a, _ []byte) []byte { return a }
 //@   opt extent on
 //@   let rootTag0 = t.root.tag
 //@   requires WF1in_collation(t) && sizeSane(t)
-//@   ensures[removed_key_matches] implies(result, reveal(as(collateLeafNode, leaf).key.obj) && leafKeyIs_collation(leaf, keyS))
+//@   ensures[removed_key_matches] implies(result, reveal(as(collateLeafNode, leaf).key.obj) && reveal(keyS.obj) && leafKeyIs_collation(leaf, keyS))
 //@   ensures[scratch_bounded] scratchLen(t.cok.buf) < 2147483648
 //@   assume_at_call (*nodeRef).deleteChild : implies(isMerge(*ptr) && survT(*ptr, b) != 4, survP(*ptr, b) != ptr.obj && as(node, survP(*ptr, b)).prefixLen + as(node4, (*ptr).pointer).prefixLen + 1 < 4294967296)
 //@   ensures[wf] WF1_collation(t)
